@@ -5,4 +5,4 @@ Require Import PV.Stack.Model PV.Comb.PState PV.Comb.Bytes PV.Comb.Prog PV.Comb.
   PV.Gen.GenCompile PV.Gen.ClassH.
 Extraction Language OCaml.
 Extraction "../ocaml/gen/gen_model.ml" gen_env gen_start gen_rule gen_skip gen_expr gen_expr_atomic fixed_builtins
-  ulookup vm_env vm_start vm_rule_body exec init outcome_of run_state in_H why_not_H cleanset orule_id bytes_of_string.
+  ulookup vm_env vm_start vm_rule_body exec init outcome_of run_state in_H why_not_H cleanset orule_id bytes_of_string limit_reached.
